@@ -321,6 +321,10 @@ DAGS = {
               jl={'1': [], '2': [1], '3': [1, 2], '4': [1, 2]}, jh={'1': [3], '2': [2, 4], '3': [3, 4]}, jbad=[]),
     'B': dict(hashes='{1,2,3,4,5}', links='LinksB', heads='HeadsB', local='{3,4}', bad='{2,5}', abort='{}', syncpass='{}',
               jl={'1': [], '2': [], '3': [1], '4': [1, 5], '5': []}, jh={'1': [2, 3], '2': [4, 3, 2], '3': [3, 4]}, jbad=[2, 5]),
+    'G': dict(hashes='{1,2,3,4}', links='LinksDef', heads='HeadsA', local='{2,3,4}', bad='{}', abort='{}', syncpass='{}', flaky='{2}',
+              jl={'1': [], '2': [1], '3': [1, 2], '4': [1, 2]}, jh={'1': [3], '2': [2, 4], '3': [3, 4]}, jbad=[]),
+    'H': dict(hashes='{1,2,3,4}', links='LinksDef', heads='HeadsA', local='{2,3,4}', bad='{}', abort='{}', syncpass='{}', flaky='{1,2,3}',
+              jl={'1': [], '2': [1], '3': [1, 2], '4': [1, 2]}, jh={'1': [3], '2': [2, 4], '3': [3, 4]}, jbad=[]),
     'F': dict(hashes='{1,2,3,4}', links='LinksDef', heads='HeadsA', local='{2,3,4}', bad='{}', abort='{}', syncpass='{}', cached='{1,2,3}',
               jl={'1': [], '2': [1], '3': [1, 2], '4': [1, 2]}, jh={'1': [3], '2': [2, 4], '3': [3, 4]}, jbad=[]),
     'E': dict(hashes='{1,2,3,4,5}', links='LinksB', heads='HeadsB', local='{3,4}', bad='{2,5}', abort='{}', syncpass='{}',
@@ -332,13 +336,13 @@ DAGS = {
 }
 
 
-def rp_cfg(name, spec, dag, conc, cancels, pinned, invs='NoWedge NoHang SemOK QueueMatchesWorkers NoDeadWorkers', maxw=10):
+def rp_cfg(name, spec, dag, conc, cancels, pinned, invs='NoWedge NoHang SemOK QueueMatchesWorkers NoDeadWorkers', maxw=10, forget=True):
     d = DAGS[dag]
     return (name, '''SPECIFICATION %s
-CONSTANTS Hash = %s  Links <- %s  Local = %s  Bad = %s  SyncPass = %s  Cached = %s  Abort = %s  NReq = 3  ReqHeads <- %s  Conc = %d  MaxCancel = %d  MaxW = %d  Pinned = %s
+CONSTANTS Hash = %s  Links <- %s  Local = %s  Bad = %s  SyncPass = %s  Cached = %s  Flaky = %s  Forget = %s  Abort = %s  NReq = 3  ReqHeads <- %s  Conc = %d  MaxCancel = %d  MaxW = %d  Pinned = %s
 INVARIANTS %s
 CHECK_DEADLOCK FALSE
-''' % (spec, d['hashes'], d['links'], d['local'], d['bad'], d['syncpass'], d.get('cached', '{}'), d['abort'], d['heads'], conc, cancels, maxw, 'TRUE' if pinned else 'FALSE', invs))
+''' % (spec, d['hashes'], d['links'], d['local'], d['bad'], d['syncpass'], d.get('cached', '{}'), d.get('flaky', '{}'), 'TRUE' if forget else 'FALSE', d['abort'], d['heads'], conc, cancels, maxw, 'TRUE' if pinned else 'FALSE', invs))
 
 
 RP_KINDS = {'C16': {'replicated-event'}, 'C11': {'wedged', 'missing', 'view-stale'}, 'C10': {'wedged', 'missing', 'bad-merged', 'view-stale'}}
@@ -354,8 +358,12 @@ def run_replicator(ck, prop, tier, dag, cancels, n_sim, depth):
         r1 = vlib.tlc_check('MCReplicator.tla', rp_cfg('Replicator.%s.c1.cfg' % dag, 'Spec', dag, 1, cancels, False), '%s-rp-%s-c1' % (prop, dag), timeout=900)
         ck.require_model_ok(r1, 'Replicator dag %s, concurrency 1' % dag)
     bs, mutants = [], []
-    m = vlib.tlc_check('SimReplicator.tla', rp_cfg('Replicator.%s.pinned.cfg' % dag, 'SimSpec', dag, 2, cancels, True, invs='NoWedge'), '%s-rp-%s-pinned' % (prop, dag))
-    ck.add_tlc(m, 'Replicator as pinned (mutant specification) dag %s' % dag)
+    if dag in 'GH':
+        m = vlib.tlc_check('SimReplicator.tla', rp_cfg('Replicator.%s.pinned.cfg' % dag, 'SimSpec', dag, 2, cancels, False, invs='NoWedge', forget=False), '%s-rp-%s-pinned' % (prop, dag))
+        ck.add_tlc(m, 'Replicator that records failed fetches as fetched (mutant specification) dag %s' % dag)
+    else:
+        m = vlib.tlc_check('SimReplicator.tla', rp_cfg('Replicator.%s.pinned.cfg' % dag, 'SimSpec', dag, 2, cancels, True, invs='NoWedge'), '%s-rp-%s-pinned' % (prop, dag))
+        ck.add_tlc(m, 'Replicator as pinned (mutant specification) dag %s' % dag)
     if m.get('violated') == 'NoWedge' and m.get('trace'):
         bs.append({'id': 'pinned-counterexample-%s' % dag, 'steps': m['trace']})
         mutants.append('pinned-counterexample-%s' % dag)
@@ -369,7 +377,7 @@ def run_replicator(ck, prop, tier, dag, cancels, n_sim, depth):
         for st in b['steps']:
             pass
         acts = [s['action'] for s in b['steps']]
-        if ('Cancel' in acts) or (dag in 'BCDE' and 'JoinBatch' in acts) or (dag == 'F' and 'StoreLoad' in acts):
+        if ('Cancel' in acts) or (dag in 'BCDE' and 'JoinBatch' in acts) or (dag == 'F' and 'StoreLoad' in acts) or (dag in 'GH' and 'SFetchErr' in acts):
             ck.distinct.add(vlib.beh_signature(b))
     inp = {'property': prop, 'seed': SEED, 'dag': dag, 'req_heads': d['jh'], 'nreq': 3, 'bad': d['jbad'], 'abort': [6] if dag == 'C' else [], 'links': d['jl'],
            'behaviours': bs, 'mutant': mutants, 'long_outage_s': 25 if (thorough and prop == 'C11') else 0}
@@ -412,6 +420,8 @@ def c11(prop, tier):
     run_replicator(ck, prop, tier, 'F', 1, 60 if thorough else 10, 40)
     # a request that fails part-way: its announcement lists a valid head before one whose hash does not match (DAG C of C10)
     run_replicator(ck, prop, tier, 'C', 1, 40 if thorough else 6, 40)
+    # block reads that fail while a request is served (constant Flaky): the hash stays wanted and is queued again (DAG G / H)
+    run_replicator(ck, prop, tier, 'H' if thorough else 'G', 0, 60 if thorough else 10, 40)
     return ck.finish()
 
 
